@@ -324,6 +324,12 @@ impl FixtureDatabase {
         // Note: We don't remove definitions/usages here because:
         // 1. They might be needed for cross-file references
         // 2. They're cleaned up on next analyze_file call anyway
+
+        // From now on the text read for this file is the one on disk, which can differ
+        // from the buffer that was just closed (unsaved edits, e.g. to its imports).
+        // Answers memoised for OTHER files under the current version (per-file views,
+        // imported-fixture sets) may have been computed from the buffer: invalidate them.
+        self.invalidate_cycle_cache();
     }
 
     /// Evict entries from caches if they exceed the maximum size.
